@@ -93,6 +93,21 @@ impl MemTable {
 		}
 	}
 
+	/// True if `batch` cannot fit even into an empty memtable with
+	/// `arena_capacity` bytes, whatever tower heights its nodes get. Applying
+	/// such a batch can only fail half-way, so it must be refused before it is
+	/// logged.
+	pub(crate) fn can_never_fit(batch: &Batch, arena_capacity: usize) -> bool {
+		let needed: usize = batch
+			.entries
+			.iter()
+			.map(|e| {
+				skiplist::min_entry_size(e.key.len(), e.value.as_ref().map_or(0, |v| v.len()))
+			})
+			.sum();
+		needed + skiplist::SENTINEL_SIZE > arena_capacity
+	}
+
 	/// Sets the WAL number associated with this memtable.
 	/// This should be called when the memtable starts receiving writes
 	/// to track which WAL contains its data.
